@@ -1,6 +1,6 @@
 (* C32 - Crashes never leave files that later builds trust wrongly.
    This file holds only the statement, the property theorems and their non-vacuity examples. *)
-From PlzV Require Import Base.Harness Model.C32 Proof.C32.
+From PlzV Require Import Base.Harness Model.C32 Proof.C32 Proof.C32_Order Gen.C32Order.
 
 (* "If plz is killed at any moment during a build, the next `plz build` of the same tree produces outputs
    identical to a clean build.  Partially written outputs, metadata or hash records are never taken as up to date."
@@ -39,6 +39,15 @@ Theorem C32_build_one : forall t b s0 k, trusted t b s0 ->
   trusted t b (crash k t b s0) /\ exists s', recover t b (crash k t b s0) = Some s' /\ good_end t b s'.
 Proof. exact build_one_full. Qed.
 Print Assumptions C32_build_one.
+
+(* the step lists of the model are the effect calls of the source in source order (Gen/C32Order.v is regenerated
+   from /repo on every run): fs.WriteFile, StoreTargetMetadata, and buildTarget after the command has run *)
+Theorem C32_source_order :
+  (forall chunks mode, flat_map (wstep_of_call chunks mode) C32Order.write_file = wf_steps false chunks mode)
+  /\ (forall d, flat_map (md_of_call d) C32Order.store_metadata = md_steps d)
+  /\ (forall t b s, flat_map (phase_of_call t b s) (after_call "build" C32Order.build_target) = build_steps t b s).
+Proof. exact source_order. Qed.
+Print Assumptions C32_source_order.
 
 (* Non-vacuity. *)
 
